@@ -124,44 +124,48 @@ def accepted_patches():
     return [os.path.join(d, l.strip()) for l in open(lst) if l.strip() and not l.startswith("#")]
 
 
-def run_patches(props=None, workers=8, repo="/repo", patches=None):
-    """negative controls: the checks must be silent on /repo + each accepted behaviour-preserving patch"""
+def _patch_one(args):
     import subprocess
-    res = []
-    base = os.path.join(tempfile.gettempdir(), "nnverif-neg-%d" % os.getuid())
-
-    def one(patch, slot):
-        name = os.path.basename(patch)[:-5]
-        tmp = os.path.join(base, name)       # deterministic path: the fact cache (keyed by content AND path) is reused
-        shutil.rmtree(tmp, ignore_errors=True)
+    patch, slot, props, repo, base = args
+    name = os.path.basename(patch)[:-5]
+    tmp = os.path.join(base, name)
+    shutil.rmtree(tmp, ignore_errors=True)
+    try:
+        dst = os.path.join(tmp, "repo")
+        make_copy(repo, dst)
+        r = subprocess.run(["patch", "-p1", "-s", "-d", dst, "-i", patch], capture_output=True, text=True)
+        if r.returncode != 0:
+            return dict(id=name, status="skipped", why="patch does not apply to the current tree")
         try:
-            dst = os.path.join(tmp, "repo")
-            make_copy(repo, dst)
-            r = subprocess.run(["patch", "-p1", "-s", "-d", dst, "-i", patch], capture_output=True, text=True)
-            if r.returncode != 0:
-                return dict(id=name, status="skipped", why="patch does not apply to the current tree")
-            try:
-                fx = F.get_facts(dst, "dev", quiet=True, slot=slot)
-            except F.NoVerdict as e:
-                return dict(id=name, status="skipped", why="does not compile on the current tree: " + str(e)[-200:])
-            known = {k["key"] for k in core.load_known().get("known", [])}
-            alarms = []
-            for prop in (props or rules.PROPS):
-                ctx = core.Ctx(prop, fx)
-                rules.load(prop).run(ctx)
-                ctx.finish_floors()
-                alarms += [o["key"] for o in ctx.obligations if o["status"] != "ok" and o["key"] not in known]
-            return dict(id=name, status="silent" if not alarms else "FALSE-ALARM", keys=alarms[:5])
-        finally:
-            shutil.rmtree(tmp, ignore_errors=True)
+            fx = F.get_facts(dst, "dev", quiet=True, slot=slot)
+        except F.NoVerdict as e:
+            return dict(id=name, status="skipped", why="does not compile on the current tree: " + str(e)[-200:])
+        known = {k["key"] for k in core.load_known().get("known", [])}
+        alarms = []
+        for prop in (props or rules.PROPS):
+            ctx = core.Ctx(prop, fx)
+            rules.load(prop).run(ctx)
+            ctx.finish_floors()
+            alarms += [o["key"] for o in ctx.obligations if o["status"] != "ok" and o["key"] not in known]
+        return dict(id=name, status="silent" if not alarms else "FALSE-ALARM", keys=alarms[:5])
+    except Exception as e:  # noqa
+        return dict(id=name, status="error", why="%s: %s" % (type(e).__name__, e))
+    finally:
+        shutil.rmtree(tmp, ignore_errors=True)
+
+
+def run_patches(props=None, workers=12, repo="/repo", patches=None):
+    """negative controls: the checks must be silent on /repo + each accepted behaviour-preserving patch (one process per patch)"""
+    import multiprocessing as mp
+    base = os.path.join(tempfile.gettempdir(), "nnverif-neg-%d-%d" % (os.getuid(), os.getpid()))
     todo = patches if patches is not None else accepted_patches()
-    with cf.ThreadPoolExecutor(max_workers=workers) as ex:
-        futs = [ex.submit(one, p_, "-mut%d" % (i % workers)) for i, p_ in enumerate(todo)]
-        for f in futs:
-            try:
-                res.append(f.result())
-            except Exception as e:  # noqa
-                res.append(dict(id="?", status="error", why="%s: %s" % (type(e).__name__, e)))
+    F.build_driver()
+    args = [(p_, "-neg%d" % (i % workers), props, repo, base) for i, p_ in enumerate(todo)]
+    try:
+        with mp.get_context("fork").Pool(workers) as pool:
+            res = pool.map(_patch_one, args, chunksize=1)
+    finally:
+        shutil.rmtree(base, ignore_errors=True)
     return res
 
 
